@@ -262,9 +262,15 @@ pub fn explore(fam: &Family) -> Acc {
                 }
             }
         });
-        let accs = hs.into_iter().map(|h| h.join().expect("worker panicked (machinery error)")).collect();
-        done.store(true, Ordering::Relaxed);
-        accs
+        // stop the watchdog on every way out of this block, also when a worker panicked
+        struct Stop<'a>(&'a std::sync::atomic::AtomicBool);
+        impl Drop for Stop<'_> {
+            fn drop(&mut self) {
+                self.0.store(true, Ordering::Relaxed);
+            }
+        }
+        let _stop = Stop(done);
+        hs.into_iter().map(|h| h.join().expect("worker panicked (machinery error)")).collect()
     });
     for a in accs {
         total.merge(a);
